@@ -244,8 +244,8 @@ const std::vector<Snippet>& snippets() {
         {"SCHEDULE", "RPTRST\n 'BASIC=3' 'FREQ=2' /\n"},
         {"SCHEDULE", "RPTRST\n 'BASIC=5' 'FREQ=1' 'ALLPROPS' /\nRPTSCHED\n 'FIP=2' 'WELLS=1' 'RESTART=2' /\n"},
         {"SCHEDULE", "WLIST\n '*LST1' 'NEW' '{W}' /\n/\nWELOPEN\n '*LST1' 'OPEN' /\n/\n"},
-        {"SCHEDULE", "VFPPROD\n 1 2000 'OIL' 'WCT' 'GOR' 'THP' ' ' '{U}' 'BHP' /\n 1 10 /\n 10 20 /\n 0 0.5 /\n 100 200 /\n 0 /\n 1 1 1 1 50 60 /\n 2 1 1 1 55 65 /\n 1 2 1 1 51 61 /\n 2 2 1 1 56 66 /\n 1 1 2 1 52 62 /\n 2 1 2 1 57 67 /\n 1 2 2 1 53 63 /\n 2 2 2 1 58 68 /\n"},
-        {"SCHEDULE", "VFPINJ\n 2 2000 'WAT' 'THP' '{U}' 'BHP' /\n 1 10 /\n 10 20 /\n 1 100 110 /\n 2 120 130 /\n"},
+        {"SCHEDULE", "VFPPROD\n 1 2000 'OIL' 'WCT' 'GOR' 'THP' ' ' 1* 'BHP' /\n 1 10 /\n 10 20 /\n 0 0.5 /\n 100 200 /\n 0 /\n 1 1 1 1 50 60 /\n 2 1 1 1 55 65 /\n 1 2 1 1 51 61 /\n 2 2 1 1 56 66 /\n 1 1 2 1 52 62 /\n 2 1 2 1 57 67 /\n 1 2 2 1 53 63 /\n 2 2 2 1 58 68 /\n"},
+        {"SCHEDULE", "VFPINJ\n 2 2000 'WAT' 'THP' 1* 'BHP' /\n 1 10 /\n 10 20 /\n 1 100 110 /\n 2 120 130 /\n"},
         {"SCHEDULE", "GCONINJE\n 'FIELD' 'WATER' 'RATE' 1000 /\n/\nGCONPROD\n '{G}' 'ORAT' 500 3* 'RATE' /\n/\n"},
         {"SCHEDULE", "LIFTOPT\n 12500 5E-3 0.0 'YES' /\nWLIFTOPT\n '{W}' 'YES' 150000 1.01 1.0 /\n/\nGLIFTOPT\n '{G}' 200000 1* /\n/\n"},
         {"SCHEDULE", "WRFTPLT\n '{W}' 'YES' 'NO' 'NO' /\n/\nWRFT\n/\n"},
